@@ -122,7 +122,7 @@ func (cr *cursor) ruleLB25(breakOp *breakOpportunity, triggerNumSequence bool) {
 	}
 	if (br0 == ucd.BreakPR || br0 == ucd.BreakPO) &&
 		(br1 == ucd.BreakOP || br1 == ucd.BreakHY) &&
-		cr.nextLine == ucd.BreakNU {
+		cr.afterMarksLine == ucd.BreakNU {
 		*breakOp = breakProhibited
 	}
 	// ( OP | HY ) × NU
@@ -417,6 +417,29 @@ func (cr *cursor) startIteration(text []rune, i int) {
 	// prevPrevLine and prevLine are handled in endIteration
 	cr.line = cr.nextLine // avoid calling LookupLineBreakClass twice
 	cr.nextLine = ucd.LookupLineBreakClass(cr.next)
+
+	// rule LB25 looks at the class following an opening punctuation or an hyphen:
+	// by rule LB9, the combining marks attached to it must be skipped
+	cr.afterMarksLine = cr.nextLine
+	if (cr.line == ucd.BreakOP || cr.line == ucd.BreakHY) && i+1 < len(text) && isLineCombiningMark(cr.next, cr.nextLine) {
+		cr.afterMarksLine = ucd.BreakXX
+		for _, r := range text[i+2:] {
+			if cl := ucd.LookupLineBreakClass(r); !isLineCombiningMark(r, cl) {
+				cr.afterMarksLine = cl
+				break
+			}
+		}
+	}
+}
+
+// isLineCombiningMark returns true if [r], with line break class [cl], is
+// resolved to CM or ZWJ by rule LB1
+func isLineCombiningMark(r rune, cl lineBreakClass) bool {
+	if cl == ucd.BreakSA {
+		generalCategory := ucd.LookupType(r)
+		return generalCategory == unicode.Mn || generalCategory == unicode.Mc
+	}
+	return cl == ucd.BreakCM || cl == ucd.BreakZWJ
 }
 
 // end the current iteration, computing some of the properties
